@@ -45,7 +45,11 @@ func fetchKeys(iterator func(string) ([]string, string, error), keyBatchChan cha
 		}
 
 		if len(ks) == 0 {
-			break
+			if next == "" {
+				break
+			}
+			// an empty page (e.g. all its keys filtered out) is not the end of the listing
+			continue
 		}
 
 		select {
